@@ -14,7 +14,7 @@ Theorem C06_model_ok : forall c lres, c_goff c < 65536 -> c_loff c < 4096 ->
   ok_C06 c (run_C06 c lres) = true.
 Proof. exact C06_model_ok_lemma. Qed.
 
-Theorem C06atomic_model_ok : forall c, a_len c < 1048576 -> ok_C06atomic c (run_C06atomic c) = true.
+Theorem C06atomic_model_ok : forall c, a_len c < 1048576 -> a_skew c < 8 -> ok_C06atomic c (run_C06atomic c) = true.
 Proof. exact C06atomic_model_ok_lemma. Qed.
 
 (* alignment(): for every non-null 64-bit address the code's `addr & (!addr + 1)` does not
